@@ -275,7 +275,8 @@ def configs(ctx):
 
 
 def param_kinds(ctx):
-    return ['fresh32', 'fresh64', 'rand64a', 'rand64b'] + ([] if ctx.quick() else ['rand64c', 'rand64d', 'rand32'])
+    # 'rand64t': random parameters with tiny-norm Householder vectors (a reflection depends only on the direction of q)
+    return ['fresh32', 'fresh64', 'rand64a', 'rand64b', 'rand64t'] + ([] if ctx.quick() else ['rand64c', 'rand64d', 'rand32'])
 
 
 def prepare(cls, f, k, mode, pk, seed):
@@ -287,6 +288,11 @@ def prepare(cls, f, k, mode, pk, seed):
         m = m.double()
     if pk.startswith('rand'):
         randomise(m, gen, {'a': 1.0, 'b': 0.5, 'c': 2.0, 'd': 1.0}.get(pk[-1], 0.7))
+        if pk.endswith('t'):
+            with torch.no_grad():
+                for n_, p_ in m.named_parameters():
+                    if 'q_vectors' in n_:
+                        p_.mul_(3e-4)
     X = torch.randn(3, f, generator=gen, dtype=torch.float64).to(torch.float32 if prec == 'f32' else torch.float64)
     return m, X, prec
 
